@@ -6,6 +6,7 @@ import (
 	"math/big"
 	"math/rand"
 	"regexp"
+	"strings"
 	"sync"
 	"time"
 
@@ -302,6 +303,12 @@ func c16Judge(c *mon.Ctx, cs c16Case) {
 		}
 		r := rs.Results[name]
 		c.R.Count("verdicts_judged", 1)
+		if r.Status == lint.NE && !mon.InWindow(InvBy[name].Meta, o.Date()) {
+			// the template's date lies outside the window the lint carries TODAY (an effective date moved, a lint
+			// retired): nothing is reported, rightly (that is C03's subject) - and nothing can be judged here
+			c.R.Distinct("lints_outside_their_live_window_on_a_template", name+" on "+t.name)
+			continue
+		}
 		if r.Status == lint.NA || r.Status == lint.NE {
 			c.V("not-judged|"+name+"|"+t.name, fmt.Sprintf("%s returns %s on template %s, which is built to satisfy its applicability (%s, e=%s)", name, r.Status, t.name, cs.what, cs.e), name, inputs(o), nil)
 			continue
@@ -317,6 +324,10 @@ func c16JudgeFermat(c *mon.Ctx, k int) {
 	var pr struct{ p, q *big.Int }
 	pr.p, pr.q = fermatPair(c.Seed, k)
 	if pr.p.Cmp(pr.q) == 0 {
+		return
+	}
+	if _, ok := InvBy["e_rsa_fermat_factorization"]; !ok {
+		c.R.Distinct("lints_missing_from_registry", "e_rsa_fermat_factorization")
 		return
 	}
 	n := new(big.Int).Mul(pr.p, pr.q)
@@ -365,6 +376,8 @@ func c16JudgeFermat(c *mon.Ctx, k int) {
 		c.R.Distinct("fermat_outcomes", fmt.Sprintf("found=%v", found))
 		desc := fmt.Sprintf("N = p*q, %d bits, |p-q| has %d bits, Fermat index %s, %s", n.BitLen(), new(big.Int).Sub(pr.p, pr.q).BitLen(), idx, label)
 		switch {
+		case r.Status == lint.NE && !mon.InWindow(InvBy["e_rsa_fermat_factorization"].Meta, o.Date()):
+			c.R.Distinct("lints_outside_their_live_window_on_a_template", "e_rsa_fermat_factorization")
 		case r.Status == lint.NA || r.Status == lint.NE:
 			c.V("not-judged|e_rsa_fermat_factorization", "the Fermat lint returns "+r.Status.String()+" on an RSA subscriber certificate ("+desc+")", "e_rsa_fermat_factorization", inputs(o), nil)
 		case found && r.Status != lint.Error:
@@ -433,16 +446,27 @@ func init() {
 			ev.Coverage["parser_rejected_keys"] = r.SetKeys("rejected")
 			ev.Coverage["fermat_outcomes"] = r.Sets["fermat_outcomes"]
 			ev.Coverage["fermat_factorisations_verified"] = r.Counters["fermat_factorisations_verified"]
+			// a named lint that the tree under test no longer registers, or that its live window keeps away from every
+			// template, cannot show a verdict: listed in the evidence, not a reason to fail the observation gate
+			cannot := map[string]bool{}
+			for _, n := range r.SetKeys("lints_missing_from_registry") {
+				cannot[n] = true
+			}
+			for _, k := range r.SetKeys("lints_outside_their_live_window_on_a_template") {
+				cannot[strings.SplitN(k, " on ", 2)[0]] = true
+			}
+			ev.Coverage["named_lints_not_registered"] = r.SetKeys("lints_missing_from_registry")
+			ev.Coverage["named_lints_outside_their_live_window_on_a_template"] = r.SetKeys("lints_outside_their_live_window_on_a_template")
 			for name := range map[string]bool{"e_rsa_mod_less_than_2048_bits": true, "e_mp_modulus_must_be_2048_bits_or_more": true, "e_old_root_ca_rsa_mod_less_than_2048_bits": true, "e_old_sub_ca_rsa_mod_less_than_1024_bits": true, "e_old_sub_cert_rsa_mod_less_than_1024_bits": true, "e_cs_rsa_key_size": true, "e_mp_modulus_must_be_divisible_by_8": true, "e_rsa_public_exponent_not_odd": true, "e_rsa_public_exponent_too_small": true, "e_mp_exponent_cannot_be_one": true} {
 				for _, s := range []string{"pass", "error"} {
-					if r.Sets["verdicts"][name+"="+s] == 0 {
+					if r.Sets["verdicts"][name+"="+s] == 0 && !cannot[name] {
 						gates = append(gates, "verdict never observed: "+name+"="+s)
 					}
 				}
 			}
 			for _, name := range []string{"w_rsa_mod_not_odd", "w_rsa_mod_factors_smaller_than_752", "w_rsa_public_exponent_not_in_range"} {
 				for _, s := range []string{"pass", "warn"} {
-					if r.Sets["verdicts"][name+"="+s] == 0 {
+					if r.Sets["verdicts"][name+"="+s] == 0 && !cannot[name] {
 						gates = append(gates, "verdict never observed: "+name+"="+s)
 					}
 				}
@@ -452,7 +476,7 @@ func init() {
 			if r.Counters["date_lattice_verdicts_judged"] < 2000 {
 				gates = append(gates, "date lattice judged too few verdicts")
 			}
-			if r.Sets["fermat_outcomes"]["found=true"] == 0 || r.Sets["fermat_outcomes"]["found=false"] == 0 {
+			if (r.Sets["fermat_outcomes"]["found=true"] == 0 || r.Sets["fermat_outcomes"]["found=false"] == 0) && !cannot["e_rsa_fermat_factorization"] {
 				gates = append(gates, "Fermat lint not judged on both sides of the round limit")
 			}
 			return gates
